@@ -44,7 +44,12 @@ pub fn make_store(total: usize, fill: u8) -> Vec<u8> {
 }
 
 fn pick_len(r: &mut Rng, thorough: bool) -> usize {
-    match r.below(12) {
+    match r.below(15) {
+        // JPEG splits a store into APP11 segments of 64000 payload bytes: whole segments and a
+        // tail of -2..+30 bytes
+        12 | 13 => (1 + r.below(3) as usize) * 64_000 + r.below(33) as usize - 2,
+        // ID3 sizes are sync-safe (7 bits a byte)
+        14 => *r.pick(&[127usize, 128, 16_383, 16_384]) + r.below(24) as usize,
         0 => 46 + r.below(16) as usize,
         1 => 254 + r.below(4) as usize,
         2 => 65_480 + r.below(80) as usize,  // around one JPEG APP11 segment
@@ -110,7 +115,7 @@ impl Property for Embed {
             Which::C07 => Meta {
                 id: "C07",
                 level: "exploration",
-                rule: "one evaluation = one operation of a seeded history (2-7 operations from write(store) / replace-with-same-length / read / remove) executed by the real format handler (jumbf_io::save/load_jumbf_*_stream, remove via hook accessor) on a model asset of each of 11 formats, every stream a SimStream with seeded benign chunking (1..n byte reads/writes). Stores are well-formed JUMBF superboxes whose total length is drawn with weight on boundaries (minimal, 255/256, one and two JPEG APP11 segments, 65535/65536, base64 multiples of 3 +-1, up to 200 000). Model: read returns exactly the last store written; after one remove read is JumbfNotFound; a removed asset accepts a write again. Non-trivial = the operation changed or read a store; distinct = (format, history position, store length, chunking)",
+                rule: "one evaluation = one operation of a seeded history (2-7 operations from write(store) / replace-with-same-length / read / remove) executed by the real format handler (jumbf_io::save/load_jumbf_*_stream, remove via hook accessor) on a model asset of each of 11 formats, every stream a SimStream with seeded benign chunking (1..n byte reads/writes). Stores are well-formed JUMBF superboxes whose total length is drawn with weight on boundaries (minimal, 255/256, one and two JPEG APP11 segments, whole multiples of the 64000-byte APP11 payload with a tail of -2..+30 bytes, sync-safe ID3 size boundaries, 65535/65536, base64 multiples of 3 +-1, up to 200 000). Model: read returns exactly the last store written; after one remove read is JumbfNotFound; a removed asset accepts a write again. Non-trivial = the operation changed or read a store; distinct = (format, history position, store length, chunking)",
                 assumptions: &["a write the handler refuses with Err is counted as a probe, not judged", "BMFF boxes over 4 GiB are out of reach"],
                 real: &["format handlers (CAIReader/CAIWriter) of all 11 formats"],
                 stubbed: &["asset streams (SimStream)"],
